@@ -44,6 +44,28 @@ func nextPublishedDefault() string {
 	return s
 }
 
+var varDefaultCursor int
+
+func nextVarDefault() string {
+	s := publishedDefaults[varDefaultCursor%len(publishedDefaults)]
+	varDefaultCursor++
+	return s
+}
+
+// isIdent: usable as a variable name in the text grammar ($name) and at every other level
+func isIdent(s string) bool {
+	if s == "" {
+		return false
+	}
+	for i := 0; i < len(s); i++ {
+		c := s[i]
+		if !(c >= 'a' && c <= 'z' || c >= 'A' && c <= 'Z' || c == '_' || i > 0 && c >= '0' && c <= '9') {
+			return false
+		}
+	}
+	return true
+}
+
 func newProgGen(rng *RNG) *progGen {
 	g := &progGen{rng: rng}
 	n := 2 + rng.Intn(4)
@@ -161,6 +183,29 @@ func (g *progGen) body(maxPreds int) ([]SPred, map[string]int, []string) {
 					v = cands[r.Intn(len(cands))]
 				} else {
 					v = fmt.Sprintf("x%d", len(order))
+					// a variable's name is a symbol like any other: a quarter of the fresh variables are named after
+					// a published default symbol (all 28 in turn, so $read — index 0 — and $query — the last one —
+					// come up in every run), some after a string or a predicate name the program also uses
+					switch {
+					case r.Chance(25):
+						if d := nextVarDefault(); vars[d] == 0 {
+							if _, used := vars[d]; !used {
+								v = d
+							}
+						}
+					case r.Chance(8):
+						if d := strPool[r.Intn(len(strPool))]; isIdent(d) {
+							if _, used := vars[d]; !used {
+								v = d
+							}
+						}
+					case r.Chance(8):
+						if d := s.Name; isIdent(d) {
+							if _, used := vars[d]; !used {
+								v = d
+							}
+						}
+					}
 					vars[v] = c
 					order = append(order, v)
 				}
